@@ -986,6 +986,32 @@ Definition c16_udp (toks : list (list N)) : list (list N) :=
   | _ => REJECT_TOK
   end.
 
+(* C16 through the real endpoint. in: [u1; d1; u2; d2; u3; d3; udp transport; k; payload length]
+   sessions: 1, 2, 3 = the tunnels' connections on HTTP/1.1, HTTP/2, HTTP/3; 4 = the multiplexer's own connection when it
+   runs over HTTP/1.1 (one request per connection there); on HTTP/2 and HTTP/3 the multiplexer is a stream of session 2 / 3.
+   out: the live snapshot and the snapshot after every client has gone, eleven values each *)
+Definition snap11 (w : world) : list N :=
+  [zN (g_sessions w H1); zN (g_sessions w H2); zN (g_sessions w H3); zN (g_tcp w); zN (g_udp w);
+   zN (c_in w H1); zN (c_in w H2); zN (c_in w H3); zN (c_out w H1); zN (c_out w H2); zN (c_out w H3)].
+
+Definition c16_front_history (u1 d1 u2 d2 u3 d3 udp k plen : N) : list mop :=
+  let tun (id : N) (p : proto) (u d : N) :=
+      if u =? 0 then [] else [OpenTunnel id id; Transfer id (N.max u 8) d] in
+  let sess (id : N) (p : proto) (u : N) := if (negb (u =? 0)) || ((udp =? id) && negb (id =? 1)) then [OpenSession id p] else [] in
+  let flows (s : N) := map (fun i => OpenUdp (100 + N.of_nat i) s) (seq 0 (N.to_nat k)) ++ [Transfer s (k * plen) (k * plen)] in
+  sess 1 H1 u1 ++ sess 2 H2 u2 ++ sess 3 H3 u3
+  ++ tun 1 H1 u1 d1 ++ tun 2 H2 u2 d2 ++ tun 3 H3 u3 d3
+  ++ (if udp =? 1 then OpenSession 4 H1 :: flows 4 else if udp =? 2 then flows 2 else if udp =? 3 then flows 3 else []).
+
+Definition c16_front (toks : list (list N)) : list (list N) :=
+  match toks with
+  | [u1; d1; u2; d2; u3; d3; udp; k; plen] :: _ =>
+    let live := mrun (c16_front_history u1 d1 u2 d2 u3 d3 udp k plen) in
+    let gone := fold_left mstep [CloseSession 1; CloseSession 2; CloseSession 3; CloseSession 4] live in
+    [snap11 live; snap11 gone]
+  | _ => REJECT_TOK
+  end.
+
 (* ---------------- C19 ---------------- *)
 From TT Require Import Model.ShutdownM Generated.ShutdownFacts.
 
